@@ -1,7 +1,7 @@
 (* C19 -- property theorems only.  Proofs live in C19/Proofs*.v. *)
 From Coq Require Import NArith List.
 From DV Require Import Base.Outcome Base.Bytes Base.Names Base.PName C19.Gen C19.Model
-  C19.ProofsDec C19.ProofsOld C19.ProofsNew C19.ProofsAgree.
+  C19.ModelCmp C19.ProofsDec C19.ProofsOld C19.ProofsNew C19.ProofsAgree C19.ProofsCmp.
 Import ListNotations.
 Local Open Scope N_scope.
 
@@ -71,3 +71,33 @@ Theorem C19_agree_refuted_header :
     PtrIntoHeader (hdr0 ++ c) 12.
 Proof. exists [192;11]. eexists. eexists. exact agree_refuted_header. Qed.
 Print Assumptions C19_agree_refuted_header.
+
+(* ---- the new name compressor (model: C19/ModelCmp.v, T2 kind `bim`) ---- *)
+(* "only ever emits pointers that resolve to the intended name" is false for the
+   pinned code: three findings, each stated under the T1 flag that says the
+   repair is absent (pending/C19-compressor-*.diff) *)
+Theorem C19_new_compressor_sound_refuted : cmp_checks_attach = false ->
+  exists names c w e, c19_build 0 names = Ok c /\ nth_error names 2 = Some n_x_a_b_c /\
+    new_split c 9 = Ok (w, e) /\ w = n_x_a_c /\ w <> n_x_a_b_c.
+Proof. exact compressor_sound_refuted. Qed.
+Print Assumptions C19_new_compressor_sound_refuted.
+
+Theorem C19_new_compressor_overflow_refuted : cn_range_check = false ->
+  c19_build 16370 [[1;97;7;101;120;97;109;112;108;101;0]; [1;98;7;101;120;97;109;112;108;101;0]]
+    = Panic PC_ADD_OVERFLOW.
+Proof. exact compressor_overflow_refuted. Qed.
+Print Assumptions C19_new_compressor_overflow_refuted.
+
+Theorem C19_new_compressor_label_boundary_refuted : cmp_aligns_suffix = false ->
+  c19_build 0 [[1;97;2;97;98;0]; [2;1;97;2;97;98;0]] = Panic PC_UNREACHABLE.
+Proof. exact compressor_label_boundary_refuted. Qed.
+Print Assumptions C19_new_compressor_label_boundary_refuted.
+
+(* with the range check in place every offset handed out fits a 14-bit pointer
+   (header included) and `addr + 0xC00C` cannot overflow, for all states,
+   contents and names *)
+Theorem C19_compress_name_pointer_range : range_fixed ->
+  forall st c wire rest o st', compress_name st c wire = Ok (Some (rest, o), st') ->
+    o + 12 < 16384 /\ o + 49164 <= 65535.
+Proof. exact compress_name_pointer_range. Qed.
+Print Assumptions C19_compress_name_pointer_range.
